@@ -1,0 +1,84 @@
+//go:build verif
+
+// Contracts for package updates, read by /verif/govc. Comment-only file.
+package updates
+
+// ---- difference.go helpers (frames only here; functional contracts under C10)
+
+//@ func setDifference
+//@ modifies heap:Cell_any
+
+//@ func mergeMapDifference
+//@ modifies heap:MDom_Many_any, heap:MVal_Many_any
+
+//@ func mergeAtomicDifference
+//@ pure
+
+// ---- merge.go (C11) -----------------------------------------------------------
+
+// mergeModifyRow folds modification row b into a (in place) with respect to
+// the original row o. Columns only b touches are taken over unchanged, columns
+// neither touches stay, no column is invented, and the result is nil exactly
+// when no column is left.
+//@ func mergeModifyRow
+//@ requires ts != nil && o != nil && a != nil && b != nil && a != b && *a != nil && *a != *b
+//@ modifies (*a)[*], heap:Cell_any, heap:MDom_Many_any, heap:MVal_Many_any
+//@ ensures result == nil || result == a
+//@ ensures (result == nil) == (len(*a) == 0)
+//@ ensures forall k: string :: (k in *b) && !old(k in *a) ==> ((k in *a) && (*a)[k] == (*b)[k])
+//@ ensures forall k: string :: (k in *a) ==> (old(k in *a) || (k in *b))
+//@ ensures forall k: string :: old(k in *a) && !(k in *b) ==> ((k in *a) && (*a)[k] == old((*a)[k]))
+//@ loop 1 invariant *a == aMod && *b == bMod && aMod != nil
+//@ loop 1 invariant forall k: string :: (k in bMod) == old(k in bMod)
+//@ loop 1 invariant forall k: string :: (k in bMod) ==> bMod[k] == old(bMod[k])
+//@ loop 1 invariant forall k: string :: visited(k) && !old(k in aMod) ==> ((k in aMod) && aMod[k] == bMod[k])
+//@ loop 1 invariant forall k: string :: (k in aMod) ==> (old(k in aMod) || ((k in bMod) && visited(k)))
+//@ loop 1 invariant forall k: string :: old(k in aMod) && !((k in bMod) && visited(k)) ==> ((k in aMod) && aMod[k] == old(aMod[k]))
+
+// mergeRowUpdate: the state machine over (insert, modify, delete).
+//@ func mergeRowUpdate
+//@ requires ts != nil
+//@ requires a != nil && b != nil && a.Modify != nil && b.Modify != nil ==> (a.Old != nil && a.Modify != b.Modify && *a.Modify != nil && *a.Modify != *b.Modify)
+//@ modifies a.Initial, a.Insert, a.Modify, a.Delete, a.New, (*a.Modify)[*], heap:Cell_any, heap:MDom_Many_any, heap:MVal_Many_any
+//@ ensures_ok b == nil ==> result0 == a
+//@ ensures_ok b != nil && a == nil ==> result0 == b
+//@ ensures_ok a != nil && b != nil && old(a.Insert) != nil && b.Modify != nil ==> (result0 == a && a.New == b.New && a.Insert == b.New && a.Old == old(a.Old))
+//@ ensures_ok a != nil && b != nil && old(a.Insert) == nil && old(a.Modify) != nil && b.Modify != nil ==> (result0 == nil || (result0 == a && a.New == b.New && a.Modify == old(a.Modify) && a.Old == old(a.Old)))
+//@ ensures_ok a != nil && b != nil && old(a.Insert) == nil && old(a.Modify) != nil && b.Modify != nil ==> ((result0 == nil) == (len(*old(a.Modify)) == 0))
+//@ ensures_ok a != nil && b != nil && old(a.Insert) != nil && b.Modify == nil && b.Delete != nil ==> result0 == nil
+//@ ensures_ok a != nil && b != nil && old(a.Insert) == nil && !(old(a.Modify) != nil && b.Modify != nil) && b.Delete != nil ==> (result0 == a && a.Delete == b.Delete && a.Insert == nil && a.Modify == nil && a.New == nil && a.Initial == nil && a.Old == old(a.Old))
+//@ ensures a != nil && b != nil && !(old(a.Insert) != nil && b.Modify != nil) && !(old(a.Modify) != nil && b.Modify != nil) && b.Delete == nil ==> err != nil
+
+// merge: first old, last new; an update that cancels out is the empty update;
+// unsupported sequences are errors and yield the empty update.
+//@ func merge
+//@ requires ts != nil
+//@ requires a.rowUpdate2 != nil && b.rowUpdate2 != nil && a.rowUpdate2.Modify != nil && b.rowUpdate2.Modify != nil ==> (a.rowUpdate2.Old != nil && a.rowUpdate2.Modify != b.rowUpdate2.Modify && *a.rowUpdate2.Modify != nil && *a.rowUpdate2.Modify != *b.rowUpdate2.Modify)
+//@ modifies a.rowUpdate2.Initial, a.rowUpdate2.Insert, a.rowUpdate2.Modify, a.rowUpdate2.Delete, a.rowUpdate2.New, (*a.rowUpdate2.Modify)[*], heap:Cell_any, heap:MDom_Many_any, heap:MVal_Many_any
+//@ ensures_err result0.old == nil && result0.new == nil && result0.rowUpdate2 == nil
+//@ ensures_ok result0.rowUpdate2 == nil ==> (result0.old == nil && result0.new == nil)
+//@ ensures_ok result0.rowUpdate2 != nil && b.old == nil && b.new == nil ==> (result0.old == a.old && result0.new == a.new)
+//@ ensures_ok result0.rowUpdate2 != nil && !(b.old == nil && b.new == nil) && a.old == nil && a.new == nil ==> (result0.old == b.old && result0.new == b.new)
+//@ ensures_ok result0.rowUpdate2 != nil && !(b.old == nil && b.new == nil) && !(a.old == nil && a.new == nil) ==> (result0.old == a.old && result0.new == b.new)
+//@ ensures !(a.old == nil && a.new == nil) && b.old == nil && b.new != nil ==> err != nil
+//@ ensures a.old != nil && a.new == nil && b.old != nil && b.new != nil ==> err != nil
+
+// addUpdate merges one row update into the accumulated set. Rows of other
+// tables and other rows of the same table are untouched; when the merged
+// update is empty the row is dropped, then its table if that was the last row,
+// then the whole map if that was the last table - and nothing else.
+//@ pred MergeOK(a modelUpdate, b modelUpdate) := a.rowUpdate2 != nil && b.rowUpdate2 != nil && a.rowUpdate2.Modify != nil && b.rowUpdate2.Modify != nil ==> (a.rowUpdate2.Old != nil && a.rowUpdate2.Modify != b.rowUpdate2.Modify && *a.rowUpdate2.Modify != nil && *a.rowUpdate2.Modify != *b.rowUpdate2.Modify)
+//@ func (*ModelUpdates).addUpdate
+//@ requires u != nil && (table in dbModel.Schema.Tables)
+//@ requires u.updates != nil && (table in u.updates) && (uuid in u.updates[table]) ==> MergeOK(u.updates[table][uuid], update)
+//@ requires forall t: string :: u.updates != nil && (t in u.updates) ==> (u.updates[t] != nil && len(u.updates[t]) > 0 && allocated(u.updates[t]))
+//@ requires forall t1: string, t2: string :: u.updates != nil && t1 != t2 && (t1 in u.updates) && (t2 in u.updates) ==> u.updates[t1] != u.updates[t2]
+//@ ensures_ok forall t1: string, t2: string :: u.updates != nil && t1 != t2 && (t1 in u.updates) && (t2 in u.updates) ==> u.updates[t1] != u.updates[t2]
+//@ ensures_ok forall t: string :: t != table && old(u.updates != nil && (t in u.updates)) ==> (u.updates != nil && (t in u.updates) && u.updates[t] == old(u.updates[t]))
+//@ ensures_ok forall t: string, id: string :: t != table && old(u.updates != nil && (t in u.updates) && (id in u.updates[t])) ==> ((id in u.updates[t]) && u.updates[t][id] == old(u.updates[t][id]))
+//@ ensures_ok forall id: string :: id != uuid && old(u.updates != nil && (table in u.updates) && (id in u.updates[table])) ==> (u.updates != nil && (table in u.updates) && (id in u.updates[table]) && u.updates[table][id] == old(u.updates[table][id]))
+//@ ensures_ok forall t: string :: u.updates != nil && (t in u.updates) ==> (u.updates[t] != nil && len(u.updates[t]) > 0)
+
+//@ func (modelUpdate).isEmpty
+//@ pure
+//@ ensures result == (mu.rowUpdate2 == nil && mu.old == nil && mu.new == nil)
